@@ -322,6 +322,31 @@ func Build(spec Spec) *Built {
 				}
 			}
 		}
+		if spec.Hostile && len(infos) > 0 {
+			// a plain METHOD named like a package function, and a plain FUNCTION named like a method of a type:
+			// neither is the annotated item, so their bodies are ordinary code
+			inf := infos[len(infos)-1]
+			hn := b.d("hn")
+			fuse.Decls = append(fuse.Decls, &Node{Pre: []*Line{b.line("type " + hn + " struct{}")}})
+			for _, h := range helpers[:2] {
+				var body []*Node
+				for _, tm := range []string{"func-call", "method-call"} {
+					for _, t := range tmpls {
+						if t.Name == tm {
+							ns := t.Make(b, inf.t, inf.env)
+							for _, n := range ns {
+								for _, l := range n.flat(nil) {
+									l.Feature = "method-named-like-function"
+								}
+							}
+							body = append(body, ns...)
+						}
+					}
+				}
+				fn := &Func{Pkg: d, Name: h.Name, Recv: &Type{Pkg: d, Name: hn}, File: fuse}
+				fuse.Decls = append(fuse.Decls, &Node{Fn: fn, Pre: []*Line{b.line("func (h *" + hn + ") " + h.Name + "() {")}, Kids: body, Post: []*Line{b.line("}")}})
+			}
+		}
 		if spec.Hostile {
 			// closure / parameter that merely share the name of a package function
 			h := helpers[0]
@@ -347,7 +372,8 @@ func Build(spec Spec) *Built {
 		fa := b.NewFile(u, "a.go")
 		fb := b.NewFile(u, "b.go")
 		files := []*File{fa, fb}
-		var ftest, fext, fex *File
+		fnoimp := b.NewFile(u, "noimp.go")
+		var ftest, fext, fex, ftex *File
 		if spec.Tests {
 			ftest = b.NewFile(u, "a_test.go")
 			fext = b.NewFile(u, "ext_test.go")
@@ -357,6 +383,9 @@ func Build(spec Spec) *Built {
 			fex = b.NewFile(u, PoolTokens[ui%len(PoolTokens)]+"_x.go")
 			if spec.ExclHeaders && ui != 1 {
 				fex.AddHeaderIgnore(p, "ALL")
+			}
+			if spec.Tests {
+				ftex = b.NewFile(u, PoolTokens[(ui+1)%len(PoolTokens)]+"_y_test.go") // a test file inside an excluded path
 			}
 		}
 		if ui == 2 {
@@ -436,6 +465,55 @@ func Build(spec Spec) *Built {
 				f.Decls = append(f.Decls, decls...)
 				f = files[r.Intn(len(files))]
 			}
+			// a file that does not import the declaring package: values arrive through a package-local helper
+			if t.Kind == "struct" {
+				gname := b.d("get" + t.Name)
+				gfn := &Func{Pkg: u, Name: gname, File: fa}
+				gn := &Node{Fn: gfn, Pin: fa.Name}
+				gn.Pre = []*Line{b.tl("func "+gname+"() *%T {", refT(t, SubResult))}
+				c, cu := callNew(t, env)
+				gn.Kids = []*Node{b.stmt("return "+c, cu)}
+				gn.Post = []*Line{b.line("}")}
+				fa.Decls = append(fa.Decls, gn)
+				env2 := *env
+				env2.Getter = gfn
+				var body []*Node
+				for _, tm := range pick(func(tm Tmpl) bool { return tm.NoImp }, 4) {
+					ns := tm.Make(b, t, &env2)
+					bt.Hist[tm.Name+"@no-import-file"]++
+					for _, n := range ns {
+						for _, l := range n.flat(nil) {
+							l.Feature = "file-without-import"
+						}
+					}
+					body = append(body, ns...)
+				}
+				// instantiations spelled through a package-local alias that is declared in another file
+				aname := b.d("loc" + t.Name)
+				an := b.tstmt("type "+aname+" = %T", free(refT(t, SubOther), TONL))
+				an.Pin = fa.Name
+				fa.Decls = append(fa.Decls, an)
+				for _, tm := range pick(func(tm Tmpl) bool { return tm.Cat == CTOR && !tm.FreeT && !tm.Decl && tm.Name != "var-init-call" }, 3) {
+					ns := tm.Make(b, t, &env2)
+					bt.Hist[tm.Name+"@no-import-file"]++
+					for _, n := range ns {
+						for _, l := range n.flat(nil) {
+							l.Feature = "file-without-import"
+							for _, us := range l.Uses {
+								if us.Kind == UTypeRef {
+									us.SpellAs = q(u) + aname
+								}
+							}
+						}
+					}
+					body = append(body, ns...)
+				}
+				w := nest[ncur%len(nest)]
+				ncur++
+				n, _ := b.FuncNode(u, b.d("ni"), false, nil, fnoimp, w.Wrap(b, body))
+				n.Pin = fnoimp.Name
+				fnoimp.Decls = append(fnoimp.Decls, n)
+			}
 			// inside a @testonly function of the using package: TONL silent, everything else as usual
 			{
 				body, _ := stmts(pick(noDecl, 3), "", "in-testonly-func")
@@ -485,6 +563,12 @@ func Build(spec Spec) *Built {
 				body, _ := stmts(pick(noDecl, 3), "", "ext-test-file")
 				n, _ := b.FuncNode(u, b.d("xf"), false, nil, fext, body)
 				fext.Decls = append(fext.Decls, n)
+			}
+			if ftex != nil && r.Chance(2, 3) {
+				body, decls := stmts(pick(nil, 3), "", "excluded-test-file")
+				n, _ := b.FuncNode(u, b.d("etf"), false, nil, ftex, body)
+				ftex.Decls = append(ftex.Decls, n)
+				ftex.Decls = append(ftex.Decls, decls...)
 			}
 			if fex != nil && r.Chance(2, 3) {
 				body, decls := stmts(pick(nil, 4), "", "excluded-file")
